@@ -39,7 +39,7 @@ MANIFEST = {
             "dependence analysis' verdict on kernel arguments are not "
             "decided; OpenACC is covered only through the generic route.",
     "technique": "CFG must-pass-through with polarity + path enumeration + "
-                 "set comparison of extracted access-type tables",
+                 "set comparison of extracted access-type tables + refusal-weakening check against the reviewed guard snapshot",
 }
 TR = "src/psyclone/transformations.py"
 
